@@ -154,6 +154,9 @@ def expand_cases(chk):
     if chk.tier == 'quick':
         # all of length <= 4, a deterministic tenth of length 5
         strs = [s for i, s in enumerate(strs) if len(s) <= 4 or i % 10 == chk.seed % 10]
+    else:
+        # all of length <= 5, a deterministic 1/12 of length 6
+        strs = [s for i, s in enumerate(strs) if len(s) <= 5 or i % 12 == chk.seed % 12]
     extra = ['%(m)03d', '%(m)-4d|', '%(m).3d', '%(n)05d', '%(k)5s|', '%(k)-5s|', '%(k).1s', '%(k)05s', '%(n)ld', '%(n)i',
              '%(n)u', '%5%', '%(k)%', '%%(n)d', '%(k(x)s', '%(a(b)c)s', 'a%(k)sb%(n)02dc', '%(n)3.2d', '%(n)-03d', '%(n)0-3d',
              '%(m)5d|', '%(m)05d', '%(n)*d', '%(k)q', '%s', '%r', '%5s', '%d']
@@ -228,6 +231,8 @@ def conv_cases(chk):
     ints = [''.join(t) for ln in range(0, maxlen + 1) for t in itertools.product(ialpha, repeat=ln)]
     if chk.tier == 'quick':
         ints = [s for i, s in enumerate(ints) if len(s) <= 3 or i % 12 == chk.seed % 12]
+    else:
+        ints = [s for i, s in enumerate(ints) if len(s) <= 4 or i % 8 == chk.seed % 8]
     for s in ints:
         add('integer', dt.integer, s, lambda r: [('Z', r)], 'int')
         add('octal_type', dt.octal_type, s, lambda r: [('Z', r)], 'octal')
@@ -318,6 +323,13 @@ def _run(chk, wd, proved):
         """Run one structured configuration through the real reader and queue
         the comparison with the model."""
         here = fresh_dir()
+        if callable(cfg):
+            fn = cfg
+            cfg = fn(here)
+            if cfg is None:
+                return
+            label = getattr(fn, 'label', label)
+            constraint = getattr(fn, 'constraint', constraint)
         path = c14_cfg.write_case(cfg, here, rng if noise else None)
         texts = _file_texts(cfg, here)
         r = c14_cfg.real_parse(path)
@@ -341,6 +353,11 @@ def _run(chk, wd, proved):
                 return
             atoms = [('T', 'err'), ('T', r[1])]
             distinct.add(('err', r[1], stream == 'corruption' and constraint))
+            if any(s_ in MODEL_REJECTS for s_ in sigs) and r[1] not in MODEL_REJECTS.values():
+                # the real reader accepted the value of a known-finding signature and failed later
+                # on something else; the model stops at the signature: not comparable
+                chk.dist('not-compared:error-after-known-finding-signature')
+                atoms = None
         else:
             o = r[1]
             chk.dist('outcome:accepted')
@@ -406,30 +423,31 @@ def _run(chk, wd, proved):
     sweep = c14_gen.sweep_configs(wd, thorough)
     for cfg in sweep:
         one(cfg, 'sweep', noise=False)
-    nrand = 260 if not thorough else 4000
+    nrand = 260 if not thorough else 2500
     for _ in range(nrand):
-        one(c14_gen.valid_config(rng, wd, thorough), 'random')
+        one(lambda here: c14_gen.valid_config(rng, here, thorough), 'random')
     # ---- 4. single-point corruptions of a valid configuration
     cors = c14_gen.corruptions(wd, thorough)
     for label, constraint, cfg in cors:
         one(cfg, 'corruption', label=label, constraint=constraint, noise=False, must_reject=True)
     # ---- 5. the same corruptions planted into random well-formed configurations
-    planted = 0
-    for _ in range(120 if not thorough else 2500):
-        cfg = c14_gen.valid_config(rng, wd, thorough)
+    planted = [0]
+    base = dict((n, dict(o)) for n, o in c14_gen.base_config(wd)['main'])
+
+    def plant(here):
+        cfg = c14_gen.valid_config(rng, here, thorough)
         label, constraint, donor = rng.choice(cors)
-        base = dict((n, dict(o)) for n, o in c14_gen.base_config(wd)['main'])
         diff = None
         for n, o in donor['main']:
             if n in base:
                 for k, v in o:
                     if base[n].get(k) != v:
-                        diff = (n.split(':')[0], k, v)
+                        diff = (n.split(':')[0], k, v.replace(wd, here))
         if diff is None:
-            continue
+            return None
         targets = [i for i, (n, _) in enumerate(cfg['main']) if n.split(':')[0] == diff[0]]
         if not targets:
-            continue
+            return None
         i = rng.choice(targets)
         n, o = cfg['main'][i]
         o2 = [(k, v) for k, v in o if k != diff[1]] + [(diff[1], diff[2])]
@@ -437,10 +455,14 @@ def _run(chk, wd, proved):
             o2 = [(k, v) for k, v in o2 if k not in ('numprocs', 'stopasgroup')] + \
                  [('numprocs', '3')] + ([('stopasgroup', 'true')] if diff[1] == 'killasgroup' else [])
         cfg['main'][i] = (n, o2)
-        planted += 1
-        # other errors may come first in a random context, so only the exception type,
-        # the known-finding signatures and the agreement with the model are judged
-        one(cfg, 'planted', label='planted: ' + label, constraint=constraint, must_reject=False)
+        planted[0] += 1
+        plant.label = 'planted: ' + label
+        plant.constraint = constraint
+        return cfg
+    for _ in range(120 if not thorough else 1500):
+        # other errors may come first in a random context, so only the exception type, the
+        # known-finding signatures and the agreement with the model are judged
+        one(plant, 'planted', label='planted', must_reject=False)
     # ---- 6. corruptions of the ini text itself (tokeniser: not modelled)
     ntext = 0
     for label, text in c14_gen.text_corruptions(wd):
@@ -512,7 +534,7 @@ def _run(chk, wd, proved):
                    'corruptions; each parsed by the real ServerOptions and compared field by field with the model inside Coq. '
                    'distinct = distinct (outcome, #groups, #processes, group classes, includes) or (error kind, constraint). '
                    'unit streams: format strings over an 11-letter alphabet, KEY=value strings over a 9-letter alphabet, '
-                   'converter inputs' % (len(sweep), nrand, len(cors), planted, ntext))
+                   'converter inputs' % (len(sweep), nrand, len(cors), planted[0], ntext))
     cov['samples'] = [dict((k, m[k]) for k in ('stream', 'label', 'files')) for m in meta[len(sweep) + 3:len(sweep) + 5]]
     cov['samples'] += [repr(emeta[200]), repr(kmeta[300]), repr(cmeta[100])]
 
